@@ -1,7 +1,13 @@
 #!/bin/bash
-# Offline build of the whole harness (all property explorers).
+# Offline build of the harness: the explorers of all claimed properties
+# (tools/built.txt). Each ./check rebuilds incrementally against /repo anyway.
 set -eu
 cd "$(dirname "$0")"
 export CARGO_NET_OFFLINE=true
 export CARGO_TARGET_DIR="${VERIF_TARGET:-$PWD/target}"
-cargo build --release --offline --manifest-path harness/Cargo.toml --bins
+bins=()
+while read -r id; do
+  case "$id" in ''|'#'*) continue;; esac
+  bins+=(--bin "$(echo "$id" | tr 'A-Z' 'a-z')")
+done < tools/built.txt
+cargo build --release --offline --manifest-path harness/Cargo.toml "${bins[@]}"
